@@ -138,6 +138,13 @@ theorem lloyd_cost_antitone_L1_false :
       cost l1 (runOnce (α := Rat) l1 (fun _ _ => false) [[0], [0], [10]] 2 [[0]]).centroids
         [[0], [0], [10]] := by decide +kernel
 
+/-- … and for the L∞ metric (same one-dimensional witness). -/
+theorem lloyd_cost_antitone_Linf_false :
+    cost linf (runOnce (α := Rat) linf (fun _ _ => false) [[0], [0], [10]] 1 [[0]]).centroids
+        [[0], [0], [10]] <
+      cost linf (runOnce (α := Rat) linf (fun _ _ => false) [[0], [0], [10]] 2 [[0]]).centroids
+        [[0], [0], [10]] := by decide +kernel
+
 /-- the kept run of `fit`, unpacked -/
 theorem fit_some (rd : List α → List α → α) (conv : List (List α) → List (List α) → Bool)
     (ltInf : α → Bool) (k : Nat) (xs : List (List α)) (budget : Nat)
